@@ -608,11 +608,21 @@ qb_ipcs_connection_unref(struct qb_ipcs_connection *c)
 	}
 }
 
+static void
+_closed_retry_job(void *data)
+{
+	struct qb_ipcs_connection *c = (struct qb_ipcs_connection *)data;
+
+	c->closed_retry_queued = QB_FALSE;
+	qb_ipcs_disconnect(c);
+	/* the reference the queued job was holding */
+	qb_ipcs_connection_unref(c);
+}
+
 void
 qb_ipcs_disconnect(struct qb_ipcs_connection *c)
 {
 	int32_t res = 0;
-	qb_loop_job_dispatch_fn rerun_job;
 
 	if (c == NULL) {
 		return;
@@ -640,25 +650,41 @@ qb_ipcs_disconnect(struct qb_ipcs_connection *c)
 	}
 	if (c->state == QB_IPCS_CONNECTION_SHUTTING_DOWN) {
 		int scheduled_retry = 0;
+
+		if (c->in_closed_cb || c->closed_cb_done) {
+			/* called from inside connection_closed, or after
+			 * it has said it is finished: nothing left to do */
+			return;
+		}
 		res = 0;
 		if (c->service->serv_fns.connection_closed) {
+			c->in_closed_cb = QB_TRUE;
 			res = c->service->serv_fns.connection_closed(c);
+			c->in_closed_cb = QB_FALSE;
 		}
-		if (res != 0) {
+		if (res != 0 && c->closed_retry_queued) {
+			/* a re-run is queued already */
+			scheduled_retry = 1;
+		} else if (res != 0) {
 			/* OK, so they want the connection_closed
-			 * function re-run */
-			rerun_job =
-			    (qb_loop_job_dispatch_fn) qb_ipcs_disconnect;
+			 * function re-run; the queued job has its own
+			 * reference as anybody may disconnect (and so
+			 * finish with) the connection before it runs */
+			qb_ipcs_connection_ref(c);
 			res = c->service->poll_fns.job_add(QB_LOOP_LOW,
-							   c, rerun_job);
+							   c, _closed_retry_job);
 			if (res == 0) {
 				/* this function is going to be called again.
 				 * so hold off on the unref */
 				scheduled_retry = 1;
+				c->closed_retry_queued = QB_TRUE;
+			} else {
+				qb_ipcs_connection_unref(c);
 			}
 		}
 		remove_tempdir(c->description);
 		if (scheduled_retry == 0) {
+			c->closed_cb_done = QB_TRUE;
 			/* This removes the initial alloc ref */
 			qb_ipcs_connection_unref(c);
 		}
